@@ -107,17 +107,18 @@ deriving Repr, DecidableEq
 
 def ticksPerSecond : Nat := 1024
 
+/-- `if x < lo: lo elif x > hi: hi else: x` -/
+def clamp (lo hi x : Nat) : Nat := if x < lo then lo else if x > hi then hi else x
+
 /-- the silent range corrections of `TftpServer.__init__` -/
 def clampCfg (defaultTimeoutTicks : Nat) (maxTimeout : Nat) (maxRetries : Int) (maxBlockSize : Nat)
     (wrap : Option Nat) : Cfg :=
-  let mt := if maxTimeout < Generated.MIN_TIMEOUT then Generated.MIN_TIMEOUT
-            else if maxTimeout > Generated.MAX_TIMEOUT then Generated.MAX_TIMEOUT else maxTimeout
-  let dt := if defaultTimeoutTicks < Generated.MIN_TIMEOUT * ticksPerSecond then Generated.MIN_TIMEOUT * ticksPerSecond
-            else if defaultTimeoutTicks > mt * ticksPerSecond then mt * ticksPerSecond else defaultTimeoutTicks
-  let mr := if maxRetries < 1 then 1 else maxRetries.toNat
-  let mb := if maxBlockSize < Generated.DEFAULT_BLOCK_SIZE then Generated.DEFAULT_BLOCK_SIZE
-            else if maxBlockSize > Generated.MAX_BLOCK_SIZE then Generated.MAX_BLOCK_SIZE else maxBlockSize
-  { defaultTimeout := dt, maxTimeout := mt, maxRetries := mr, maxBlockSize := mb, wrap := wrap }
+  let mt := clamp Generated.MIN_TIMEOUT Generated.MAX_TIMEOUT maxTimeout
+  { defaultTimeout := clamp (Generated.MIN_TIMEOUT * ticksPerSecond) (mt * ticksPerSecond) defaultTimeoutTicks
+    maxTimeout := mt
+    maxRetries := if maxRetries < 1 then 1 else maxRetries.toNat
+    maxBlockSize := clamp Generated.DEFAULT_BLOCK_SIZE Generated.MAX_BLOCK_SIZE maxBlockSize
+    wrap := wrap }
 
 /-! ### option negotiation (`_TftpReadRequest.__init__`, `_process_transfer_size_option`) -/
 
@@ -433,5 +434,21 @@ def processDatagram (accepts : List Char → List Bool) (data : Bytes) : ReqResu
     else if op = opDATA ∨ op = opACK ∨ op = opERROR ∨ op = opOACK then .error Generated.ERROR_ILLEGAL_OPERATION
     else .ignored
   | _ => .ignored
+
+/-! ### the server address handed to the handler (`TftpServer._run`) -/
+
+structure SockAddr where
+  host : List Char
+  port : Nat
+  flow : Nat
+  scope : Nat
+deriving Repr, DecidableEq
+
+/-- with `IPV6_PKTINFO` the host part of the socket name is replaced by the datagram's destination
+address; port, flow info and scope id are those of the socket on which the request arrived -/
+def serverAddr (pktinfoDst : Option (List Char)) (sockname : SockAddr) : SockAddr :=
+  match pktinfoDst with
+  | some d => { sockname with host := d }
+  | none => sockname
 
 end Vinegar.Tftp
